@@ -404,6 +404,11 @@ STANDINS = {
                       'to_string on 0..100000 and 2^k-1,2^k,2^k+1; to_lowercase on all 2-char ASCII strings without upper case; '
                       'RRQ/WRQ/OACK/ERROR from a grammar (10 strings incl. empty, non-ASCII, 517 bytes; 8 option values incl. usize::MAX; '
                       'lists of 0..3 options) against an independent RFC encoder plus round trip (about 2.8 million cases)'}],
+    'C18': [{'name': 'bounded_window', 'bin': 'bounded_window', 'extract': False,
+             'assumed_contract': 'none assumed: every Window operation is under contract; this executes the real Window against an executable twin of the specification so that a change '
+                                 'that makes the annotations inapplicable still meets a concrete check',
+             'bound': 'read side: file length 0..13 x chunk {1,2,3,4,5,8} x window size 1..4 x every sequence of 0..5 operations over {fill, remove(1), remove(2), remove(len), '
+                      'remove(len+1)}; write side: window size 1..3 x every sequence of 0..6 operations over {add x3 payloads, empty} - about 1.3 million sequences'}],
     'C17': [{'name': 'bounded_config', 'bin': 'bounded_config', 'extract': False,
              'assumed_contract': 'none assumed: Config::new / ClientConfig::new are under contract; this executes them against an executable twin of the fold specification so that a '
                                  'change that makes the annotations inapplicable (new helper, restructured loop) still meets a concrete check',
